@@ -372,6 +372,21 @@ def writeFileAtomically(filename, lines) -> None:
         raise
 
 
+def copyFileAtomically(file_from, file_to) -> None:
+    """
+    Copy to a temporary file next to the target and rename it over the target, so that
+    an interrupted run never leaves an existing copy truncated.
+    """
+    tmpfilename = file_to + ".kojen-tmp"
+    try:
+        shutil.copy(file_from, tmpfilename)
+        os.replace(tmpfilename, file_to)
+    except BaseException:
+        if os.path.exists(tmpfilename):
+            os.remove(tmpfilename)
+        raise
+
+
 class CGenerator:
 
     def __init__(self, inputfiledir, outputfiledir, language=None, author='Anonymous', group='', brief='',namespace_to_folders = False):
@@ -753,7 +768,7 @@ def FileCopyUtil(dir_from, dir_to, list_of_filenames):
         os.makedirs(dir_to, exist_ok=True)
         for filename in list_of_filenames:
             try:
-                shutil.copy(os.path.join(dir_from, filename), os.path.join(dir_to, filename))
+                copyFileAtomically(os.path.join(dir_from, filename), os.path.join(dir_to, filename))
             except OSError:
                 warning("Copy of the file %s failed" % os.path.join(dir_from, filename))
     except OSError:
